@@ -384,3 +384,20 @@ package lua
 //@ ensures  forall k int :: 0 <= k && k < top(ls) ==> ls.reg.array[k] == ite(k == old(i2r(ls, idx)) && k >= base(ls), value, old(ls.reg.array[k]))
 //@ ensures  arrSameOrFresh(ls.reg) && cap(ls.reg.array) >= old(cap(ls.reg.array))
 //@ modifies ls.reg.array, ls.reg.top, ls.reg.array[*]
+
+// ---------------------------------------------------------------------------
+// Calls into Lua code from Go (state.go). Call runs arbitrary Lua/host code and is not verified; its assumed contract
+// is the call contract of C02/C10 plus the call-stack discipline (DESIGN.md §7.7). Every call is recorded in the ghost
+// call log with the function value and up to three arguments (pre) and the first result (post).
+// ---------------------------------------------------------------------------
+
+//@ trusted (*LState).Call [C04 C10 C18 C20]
+//@ assume (*LState).Call(nargs, nret): removes the function and its nargs arguments from the top of the value stack and leaves exactly nret results (all for MultRet); the current frame, its header and the registry object are the same afterwards; values of the calling host activation below the function slot are unchanged (call discipline, assumed)
+//@ logged pre: ls.reg.array[top(ls)-nargs-1], ls.reg.array[top(ls)-nargs], ls.reg.array[top(ls)-nargs+1], ls.reg.array[top(ls)-nargs+2]; post: ls.reg.array[old(top(ls))-nargs-1]
+//@ requires Inv_api(ls) && nargs >= 0 && top(ls) - base(ls) >= nargs + 1
+//@ ensures  Inv_api(ls) && ls.reg == old(ls.reg) && ls.currentFrame == old(ls.currentFrame) && base(ls) == old(base(ls)) && ls.G == old(ls.G)
+//@ ensures  nret >= 0 ==> top(ls) == old(top(ls)) - nargs - 1 + nret
+//@ ensures  nret < 0 ==> top(ls) >= old(top(ls)) - nargs - 1
+//@ ensures  forall k int :: base(ls) <= k && k < old(top(ls)) - nargs - 1 ==> ls.reg.array[k] == old(ls.reg.array[k])
+//@ ensures  forall k int :: base(ls) <= k && k < top(ls) ==> ls.reg.array[k] != nil
+//@ modifies everything
